@@ -494,9 +494,49 @@ fn gen_boundary_timeout_scenario(r: &mut Rng) -> Scenario {
     Scenario { sources, helpers, script, final_sleep: Some(5), p_delay: *r.pick(&[60u32, 150, 400]), after_go: None, report: true }
 }
 
+/// An awaited process written BEFORE a receive with a (slow) filter; the message arrives first, so the
+/// filter is in flight when the helper finishes or fails: the re-entry after the verdict must look at
+/// the await source again (seeded/C15-2 resumed the scan at the receive source instead: the result /
+/// failure is recorded but never looked at, the select parks for ever when the filter rejects).
+fn gen_await_before_filter_scenario(r: &mut Rng) -> Scenario {
+    let fails = r.chance(1, 2);
+    let trigger = if r.chance(2, 3) { Trigger::Go } else { Trigger::Countdown(*r.pick(&[20u32, 60, 200])) };
+    let helpers = vec![Helper { trigger: trigger.clone(), fails }];
+    let ty = *r.pick(&[Ty::Int, Ty::Int, Ty::Bin, Ty::Str]);
+    let verdict = if r.chance(2, 3) { FRes::Nil } else { FRes::Ok };
+    let mut sources = vec![];
+    if r.chance(1, 4) {
+        sources.push(Src::Recv { tys: vec![Ty::Int, Ty::Bin, Ty::Str].into_iter().filter(|t| *t != ty).take(1).collect(), filter: None });
+    }
+    sources.push(Src::Await(0));
+    sources.push(Src::Recv { tys: vec![ty], filter: Some(Filter { slow: *r.pick(&[10u32, 40, 150, 500]), clauses: vec![(Pred::Any, verdict)] }) });
+    if r.chance(1, 3) {
+        sources.push(Src::Timeout(format!("{}", r.range(30, 90))));
+    }
+    let m = match ty {
+        Ty::Int => Msg::Int(r.range(0, 9)),
+        Ty::Bin => {
+            let n = 1 + r.usize(3);
+            Msg::Bin(r.bytes(n))
+        }
+        Ty::Str => Msg::Str(["a", "hi", "hello"][r.usize(3)].to_string()),
+    };
+    let mut script = vec![Act { sleep: None, spin: 0, kind: ActKind::Send(m) }];
+    if trigger == Trigger::Go {
+        script.push(Act { sleep: None, spin: *r.pick(&[0u32, 5, 20, 60, 200]), kind: ActKind::Go(0) });
+    }
+    if r.chance(1, 3) {
+        script.push(Act { sleep: None, spin: *r.pick(&[0u32, 30]), kind: ActKind::Send(gen_msg(r)) });
+    }
+    Scenario { sources, helpers, script, final_sleep: Some(*r.pick(&[5u64, 100])), p_delay: 0, after_go: None, report: r.chance(3, 4) }
+}
+
 fn gen_scenario(r: &mut Rng) -> Scenario {
     if r.chance(1, 6) {
         return gen_takeover_scenario(r);
+    }
+    if r.chance(1, 6) {
+        return gen_await_before_filter_scenario(r);
     }
     if r.chance(1, 7) {
         return gen_boundary_timeout_scenario(r);
@@ -722,6 +762,7 @@ struct Outcome {
     abandoned: u64,
     /// messages / results that arrived while a receive function was running
     arrivals_during_filter: u64,
+    results_during_filter: u64,
     rejected: Option<String>,
     steps: usize,
     end_time: u64,
@@ -885,6 +926,9 @@ impl<'a> Runner<'a> {
                     }
                     rs.sort();
                     for (pid, r) in rs {
+                        if recv_idx(&self.mstate).is_some() {
+                            self.out.results_during_filter += 1;
+                        }
                         self.arrived.insert(pid, r.clone());
                         self.ask(format!("(result {pid} {r})"));
                         evlog.push(format!("result {pid} {r}"));
@@ -1533,6 +1577,7 @@ fn main() {
         ev.add("steps-with-several-select-executions", o.select_steps_straddled);
         ev.add("pending-verdict-abandoned-for-higher-priority-source", o.abandoned);
         ev.add("messages-arrived-while-a-filter-ran", o.arrivals_during_filter);
+        ev.add("results-or-failures-arrived-while-a-filter-ran", o.results_during_filter);
         if let Some(c) = &o.completion {
             let via = if c.spec.starts_with("yields nil") {
                 "completion:timeout"
